@@ -379,6 +379,54 @@ def o_accept_bech32(case):
     return lab + ["accepted"]
 
 
+def o_shared_text(case):
+    """one parseable_str object (the type pycoin's own command-line tools wrap their argument in, so that decodings are
+    cached) handed to several networks in turn: every network must give it the verdict it gives the same text as a fresh
+    str - what an earlier network made of it must not leak"""
+    a = case["net"]
+    kind = case["kind"]
+    pf = PFX[a]
+    h = bytes.fromhex(case["h"])
+    if kind in ("p2wpkh", "p2wsh", "p2tr"):
+        if not pf["hrp"]:
+            return ["skip-no-hrp"]
+        ver, prog = {"p2wpkh": (0, h[:20]), "p2wsh": (0, h), "p2tr": (1, h)}[kind]
+        text = refenc.segwit_encode(pf["hrp"], ver, prog)
+    else:
+        pre = pf.get("address" if kind == "p2pkh" else "p2sh")
+        if pre is None or a in GRS:
+            return ["skip-no-prefix"]
+        text = refenc.b58check_encode(pre + h[:20])
+    shared = NETS[a].parseable_str_type(text)
+    order = [a] + [CODES[i % len(CODES)] for i in case["others"]]
+    if case["first_own"] is False:
+        order = order[1:] + [a]
+    labels = ["kind=" + kind]
+    for code in order:
+        if code in GRS:
+            continue
+        got = NETS[code].parse.address(shared)
+        want = NETS[code].parse.address(str(text))
+        g = None if got is None else got.script()
+        w = None if want is None else want.script()
+        if g != w:
+            _bad("address:verdict-depends-on-earlier-parses", "%r wrapped once in parseable_str and parsed by %s in turn: %s.parse.address gives %s, "
+                 "on a fresh str it gives %s" % (text, order, code, None if g is None else g.hex(), None if w is None else w.hex()))
+        if g is not None and code != a:
+            labels.append("accepted-by-another-network")
+    return labels
+
+
+def s_shared_text():
+    # the neighbours include the networks that share Base58 prefixes with others (BTC/BCH, the 6f/c4 test networks)
+    near = [i for i, c in enumerate(CODES) if c in ("BTC", "BCH", "XTN", "XRT", "XCH", "XTG", "TBTX", "LTC", "XLT", "BTG")]
+    others = st.lists(st.one_of(st.sampled_from(near), st.integers(0, len(CODES) - 1)), min_size=1, max_size=5)
+    return st.fixed_dictionaries({"net": st.one_of(st.sampled_from(["BTC", "XTN", "XRT", "BCH", "LTC"]), st.sampled_from(CODES)),
+                                  "kind": st.sampled_from(["p2pkh", "p2sh", "p2wpkh", "p2wsh", "p2tr", "p2wpkh"]),
+                                  "h": st.binary(min_size=32, max_size=32).map(bytes.hex), "others": others,
+                                  "first_own": st.sampled_from([True, True, False])})
+
+
 def s_accept_bech32():
     with_hrp = [c for c in CODES if PFX[c]["hrp"]]
     without = [c for c in CODES if not PFX[c]["hrp"]]
@@ -651,6 +699,11 @@ SUBCHECKS = [
     SubCheck("accept_bech32_grid", o_accept_bech32, cases=cases_accept_bech32_grid, exhaustive=True,
              rule="every network with an HRP x witness version 0..16 x program length 2..40 x Bech32 and Bech32m checksum: accepted => "
                   "(v0,20|32,Bech32) or (v1,32,Bech32m), script OP_n push, re-encoding identical; those three forms must be accepted"),
+    SubCheck("shared_text_across_networks", o_shared_text, strategy=s_shared_text, budget=(1500, 60000),
+             nontrivial=lambda c, l: "accepted-by-another-network" in l or True,
+             rule="a valid address of one network (all five kinds) wrapped once in pycoin's caching parseable_str type and parsed by that network "
+                  "and 1-5 others in turn (weighted to the networks that share Base58 prefixes): each verdict and script equals the one the "
+                  "same network gives the text as a fresh str"),
     SubCheck("accept_bech32_generated", o_accept_bech32, strategy=s_accept_bech32, budget=(6000, 150000),
              nontrivial=lambda c, l: "hrp-own" in l or "accepted" in l,
              rule="own / foreign / near-miss HRPs, versions 0..17, lengths 0..41, both constants, upper case; on networks with and without an HRP"),
